@@ -239,10 +239,12 @@ class Replayer:
         self.good_traces = []         # sample of matching walks, validated as well (binding demo)
         self._noted = set()
         self.trans_hook = None
+        self.step_hook = None
         self.stats = dict(states=0, transitions=0, skipped_fdwra=0, mismatches=0, exceptions=0, ops={})
 
-    def replay(self, inst, state_hook=None, max_groups=None, trans_filter=None, trans_hook=None):
+    def replay(self, inst, state_hook=None, max_groups=None, trans_filter=None, trans_hook=None, step_hook=None):
         self.trans_hook = trans_hook
+        self.step_hook = step_hook
         import time
         t0 = time.time()
         real = Real(self.h, inst, self.alphabet, self.na, self.nw)
@@ -272,7 +274,9 @@ class Replayer:
             sline = states[k]
             self.stats["states"] += 1
             if state_hook is not None:
-                state_hook(real, copy.deepcopy(obj), sline, cv)
+                # on the object itself, not on a copy: accessors are read-only by contract, and anything they
+                # leave behind (caches ...) must not change what later steps of the history observe
+                state_hook(real, obj, sline, cv)
             for t in trans.get(k, []):
                 a = t["a"]
                 if a["op"] == "Fdwra" and real.inst.fenc != "N":
@@ -309,6 +313,9 @@ class Replayer:
                 ok = skey(p) == skey(t["t"])
                 if a["op"] == "Fdwra" and ret != a["it"]:
                     ok = False
+                if ok and self.step_hook is not None and skey(p) in states:
+                    # after EVERY action (not only on first arrival in a state): the object carries its whole history
+                    self.step_hook(real, o2, states[skey(p)], cv)
                 if ok:
                     k2 = skey(p)
                     if k2 not in store:
